@@ -34,6 +34,12 @@ CHECKS = {
    text="For generated RIB contents (backup groups shared/missing/circular, cross-instance references) the complete decision table of Flush {target} x {election field} is enumerated against server election state (a learnt 128-bit id from a lattice, or none learnt with injected contents): every non-authorised or malformed cell must return the code and FlushResponseError reason gribi.proto assigns and change nothing (Get + hooks after each cell); one drawn authorised cell must answer OK, empty exactly its targets and leave counters consistent, and a generated epilogue of operations must behave as the model predicts.",
    note="Trusted: the status table transcribed from gribi.proto comments (zero id: reason fixed, code INVALID_ARGUMENT or FAILED_PRECONDITION accepted); reference model; hooks. Authorised cells are sampled per RIB, rejected cells are all enumerated.",
    design="DESIGN.md §4 C08"),
+ "C07": dict(
+   technique="property-based testing: round-trip (programmed payload == Get payload), metamorphic relations over the (NI x table) request matrix, and FromGetResponses rebuild, on contents generated through Modify",
+   level="exploration",
+   text="RIB contents are reached through Modify with payloads populating every fluent-settable field; then the whole request matrix {3 NIs, all, unknown} x {ALL and the five tables} is issued. Each response set must equal the model's installed entries of that scope with proto-equal payloads and correct NI tags; Get(ALL) must be the disjoint union of the per-table Gets and Get(all NIs) the union of per-NI Gets; empty scopes give empty OK streams; a RIB rebuilt with rib.FromGetResponses must equal the source contents.",
+   note="Trusted: reference model for which keys are installed; canonicalisation of keyed lists; in-process Get stream (no gRPC codec).",
+   design="DESIGN.md §4 C07"),
 }
 NOT_YET = {}
 
